@@ -299,6 +299,13 @@ def _arrays(tier, seed):
                 for mag in mags:
                     out.append(dict(kind='tt', shape=sh, ranks=rk, mag=mag, seed=seed))
                 out.append(dict(kind='int', shape=sh, ranks=rk, mag=1.0, seed=seed))
+    # strongly rectangular unfoldings (size-dependent code paths: a first unfolding >= 64x wider than tall)
+    wide = [([2, 150], [1, 2, 1]), ([3, 5, 6, 7], [1, 2, 3, 2, 1]), ([4, 4, 4, 4, 4], [1, 2, 3, 3, 2, 1]), ([2] * 8, [1, 2, 2, 3, 3, 2, 2, 2, 1]),
+            ([1, 100], [1, 1, 1]), ([150, 2], [1, 2, 1])]
+    for sh, rk in wide:
+        for mag in mags:
+            out.append(dict(kind='tt', shape=sh, ranks=rk, mag=mag, seed=seed))
+        out.append(dict(kind='full', shape=sh, mag=1.0, seed=seed) if int(np.prod(sh)) <= 400 else dict(kind='int', shape=sh, ranks=rk, mag=1.0, seed=seed))
     return out
 
 
